@@ -603,6 +603,7 @@ func runCM(t *testing.T, target int, policy string, evs []cmEv) (res cmResult) {
 			res.Problems = append(res.Problems, fmt.Sprintf("with every dial succeeding and 10+ minutes of clock the manager does not get back to the target: %d of %d outbound connections", n, wantOpen))
 		}
 		cm.Stop()
+		connmgr.VerifForget(cm)
 		// release dials that are still waiting so that their goroutines end
 		mu.Lock()
 		for _, d := range dials {
